@@ -1,3 +1,2 @@
 SPECIFICATION Spec
-INVARIANT MonotoneInv
 INVARIANT Verdict
